@@ -10,6 +10,7 @@ is changed.  What this module adds:
 * ``replay13(hist)``: mut.replay with, around EVERY step, the snapshot comparison
       refused (UniqueConstraintError, AmbiguousMatchError, ValueError, NotImplementedError, KeyError of a lookup)
           => snapshot unchanged                                            ("deep-refusal")
+      fails by itself with any other exception (no user callback raised) => snapshot unchanged   ("failing-op")
       Tree.copy() / Node.copy() => every tree that existed before is unchanged   ("copy-purity")
   plus the C01-C03 oracles of mut.py after every step (also after an escaped callback exception).
 * generators: ``invalid_groups`` (every operation with every documented-invalid argument on every forest
@@ -113,6 +114,7 @@ def replay13(hist, keep_world=False) -> mut.Run:
         snap0 = snapshot(w)
         _old = sys.getrecursionlimit()
         sys.setrecursionlimit(mut.OP_RECURSION_LIMIT)
+        injected = False
         try:
             res = [0, thunk()]
         except RecursionError:
@@ -121,6 +123,7 @@ def replay13(hist, keep_world=False) -> mut.Run:
             res = [1, H.err_class(e)]
             if isinstance(e, CallbackFault):
                 res = [1, 8]
+                injected = True
         finally:
             sys.setrecursionlimit(_old)
         after = w.obs()
@@ -140,6 +143,9 @@ def replay13(hist, keep_world=False) -> mut.Run:
             run.fails.append((si, "refusal", m))
         if res[0] == 1 and res[1] in REFUSALS and snap0 != snap1:
             run.fails.append((si, "deep-refusal", f"{op[0]} was refused with {H.ERR_NAMES[res[1]]} but {snap_diff(snap0, snap1)}"))
+        if res[0] == 1 and res[1] not in REFUSALS and not injected and snap0 != snap1:
+            # an operation that fails by itself (no user callback raised) with any other exception
+            run.fails.append((si, "failing-op", f"{op[0]} failed with {H.ERR_NAMES.get(res[1], res[1])} (no callback fault) and {snap_diff(snap0, snap1)}"))
         if res[0] == 0 and op[0] in ("treecopy", "nodecopy") and snap1[:len(snap0)] != snap0:
             run.fails.append((si, "copy-purity", f"{op[0]} changed its source: {snap_diff(snap0, snap1[:len(snap0)])}"))
         before = after
